@@ -37,6 +37,7 @@ theorem validate_bound (f : Func Val) (p0 : Param Val) (ps : List (Param Val)) (
   simp only [hpos, hb, hpa, hpk, hpo, names, List.map_cons, List.drop_succ_cons, List.drop_zero, hd, if_true,
     Bool.false_eq_true, if_false, List.head?_cons, keys, List.map_nil, List.contains_nil, Bool.or_false,
     Bool.true_and, Bool.false_and, Bool.not_false, Bool.and_true, beq_self_eq_true]
+  ac_rfl
 
 theorem filter_isExtra_bound (f : Func Val) (p0 : Param Val) (ps : List (Param Val)) (hpos : f.pos = p0 :: ps)
     (kw : List (Val × Val)) (hno : get? kw p0.name = none) :
